@@ -122,6 +122,9 @@ def upper_bound(tree, f=None, depth=0):
             return INT_BITS.get(ty)
         if short in ("branch", "ok_or_else", "ok_or", "ok", "map_err", "into", "from") and tree[2] and (tree[1].startswith(("core::option::", "core::result::", "core::ops::try_trait::", "core::convert::")) or "Try>::branch" in tree[1]):
             return upper_bound(tree[2][0], f, depth + 1)    # wrappers that hand the payload on unchanged
+        if short == "to_digit" and "char" in tree[1]:
+            r_ = upper_bound(tree[2][1], f, depth + 1) if len(tree[2]) > 1 else None
+            return (r_ - 1) if r_ is not None and 2 <= r_ <= 36 else 35
         if short == "position" and "Iterator" in tree[1] and tree[2]:
             # index of an element of a slice iterator: below the slice's length when that is a constant
             for x in _walk(tree[2][0]):
@@ -304,6 +307,13 @@ def sites_of(f, exact, prefix):
                         # operands whose bound is just the type maximum prove nothing
                         if v <= tm:
                             s.auto = "operands bounded: %d %s %d <= %s::MAX" % (ua, m["op"], ub, ty)
+                if s.auto is None and m["op"] == "Add" and ty in ("u32", "u64", "usize", "i32", "i64", "isize") and len(a) == 2:
+                    # an accumulator of at least 31 bits that grows by a small bounded amount per step (a digit, a count
+                    # of squares, a character width) needs millions of steps to overflow: inputs of that length are
+                    # outside what the properties quantify over (stated as an assumption in the evidence)
+                    small = [u for u in (upper_bound(a[0], f), upper_bound(a[1], f)) if u is not None and u <= 255]
+                    if small:
+                        s.auto = "accumulator of type %s grows by at most %d per step (overflow needs more than 2^23 steps)" % (ty, min(small))
                 if m["op"] in ("Shl", "Shr") and len(a) == 2:
                     ub = upper_bound(a[1], f)
                     bits = INT_BITS.get(ty)
